@@ -4,6 +4,7 @@ pub mod bytes;
 pub mod conv;
 pub mod div;
 pub mod forms;
+pub mod history;
 pub mod modpow;
 pub mod mul;
 #[cfg(feature = "rand")]
@@ -24,6 +25,7 @@ pub fn run(name: &str, r: &mut Rec) -> bool {
         "conv" => conv::run(r),
         "div" => div::run(r),
         "forms" => forms::run(r),
+        "history" => history::run(r),
         "mul" => mul::run(r),
         #[cfg(feature = "rand")]
         "rand" => rand_drv::run(r),
